@@ -246,7 +246,15 @@ pub fn test_case(case: &ReuseCase) -> TestResult {
             left_tag_state && (case.final_pred % 3 == 0 || !case.final_fill),
             "tags-then-no-tags",
         )
-        .class(case.ops.iter().any(|o| matches!(o, Op::Filter(_))), "filter-in-history"))
+        .class(case.ops.iter().any(|o| matches!(o, Op::Filter(_))), "filter-in-history")
+        .class(
+            matches!(case.ops.iter().rev().find(|o| matches!(o, Op::Update(..))), Some(Op::Update(Fmt::Raw, t)) if t.len() == case.final_text.len() && *t != case.final_text),
+            "previous-text-of-equal-byte-length",
+        )
+        .class(
+            case.final_text.is_ascii() && matches!(case.ops.iter().rev().find(|o| matches!(o, Op::Update(..))), Some(Op::Update(Fmt::Raw, t)) if t.len() == case.final_text.len() && !t.is_ascii()),
+            "ascii-text-after-multi-byte-text-of-equal-byte-length",
+        ))
 }
 
 fn op_strategy(texts: Vec<String>) -> impl Strategy<Value = Op> {
@@ -342,7 +350,10 @@ fn thinned(a: &ModelSpec, mask: u64) -> ModelSpec {
 
 pub fn case_strategy() -> impl Strategy<Value = ReuseCase> {
     (
-        gen::model_case(ModelCfg { min_texts: 2, ..ModelCfg::TAGGED }),
+        prop_oneof![
+            4 => gen::model_case(ModelCfg { min_texts: 2, ..ModelCfg::TAGGED }).boxed(),
+            1 => gen::model_case_ascii(ModelCfg { min_texts: 2, ..ModelCfg::TAGGED }).boxed(),
+        ],
         gen::model_case(ModelCfg::TAGGED),
         any::<u16>(),
         0u8..6,
@@ -365,13 +376,32 @@ pub fn case_strategy() -> impl Strategy<Value = ReuseCase> {
             };
             (Just(a.spec), Just(b_spec), ops, Just(final_text), Just(fp), Just(ff))
         })
-        .prop_map(|(a, b, ops, final_text, final_pred, final_fill)| ReuseCase {
-            a,
-            b,
-            ops,
-            final_text,
-            final_pred,
-            final_fill,
+        .prop_map(|(a, b, mut ops, final_text, final_pred, final_fill)| {
+            // every other history ends with a text of the same number of bytes as the final text
+            // but another layout (three-byte characters before an ASCII text, ASCII before
+            // anything else): tables sized by the byte length fit, their contents do not
+            if (ops.len() + final_pred as usize) % 2 == 0 && !final_text.is_empty() {
+                let n = final_text.len();
+                let prev = if final_text.is_ascii() {
+                    format!("{}{}", "火".repeat(n / 3), "a".repeat(n % 3))
+                } else {
+                    "x".repeat(n)
+                };
+                if prev != final_text {
+                    ops.push(Op::Update(Fmt::Raw, prev));
+                    if final_fill {
+                        ops.push(Op::Predict(final_pred));
+                    }
+                }
+            }
+            ReuseCase {
+                a,
+                b,
+                ops,
+                final_text,
+                final_pred,
+                final_fill,
+            }
         })
 }
 
